@@ -108,3 +108,35 @@ fn(M + '.attributes:merge_declarations', props=['C03'],
             "implies(old(dest.value_type) == 'expression', dest.value_type == 'expression')",
             "implies(old(dest.value_type) != 'expression', same_str(dest.value_type, src.value_type))"],
    modifies=['dest.name', 'dest.value', 'dest.implied', 'dest.boolean', 'dest.value_type'])
+
+# ---------------------------------------------------------------------------------------
+# snippet resolution: cycle guard and stack discipline (C14)
+# ---------------------------------------------------------------------------------------
+fn(A + ':parse', props=['C14'], trusted=True,
+   params={'abbr': 'any', 'options': 'any'}, returns='Abbreviation',
+   requires=[], ensures=['fresh(result)'], modifies=[], allocates=True,
+   note='the whole tokenizer/parser/converter pipeline applied to a snippet body: only "returns a fresh tree" is used')
+fn(M + '.snippets:merge', inline=True, props=['C14'])
+fn(M + '.snippets:walk_resolve', props=['C14'], trusted=True,
+   params={'node': 'AbbreviationNode|Abbreviation', 'resolve': 'fn', 'config': 'Config'}, returns='any',
+   requires=[], ensures=[], modifies=['*'],
+   callback={'param': 'resolve', 'args': ['child'], 'requires': [], 'returns': 'any'},
+   note='no functional postcondition is assumed (frame * only); what carries C14 across it are the closure '
+        'invariant and the stable clauses of resolve()')
+
+define('distinct_ids', ['l'], 'forall(0, len(l), lambda i: forall(0, i, lambda j: not same(l[i], l[j])))')
+
+fn(M + '.snippets:resolve_snippets.<locals>.resolve', props=['C14'],
+   params={'child': 'AbbreviationNode'}, returns='Abbreviation|None',
+   captures={'stack': 'list[any]', 'config': 'Config', 'is_reversed': 'any', 'abbr': 'Abbreviation'},
+   requires=[],
+   # cycle guard: a snippet is pushed only when it is not on the stack, so the stack never holds a snippet twice
+   # (hence, by pigeonhole, nesting is no deeper than the number of distinct snippets)
+   closure_invariant=['distinct_ids(stack)'],
+   # balanced push/pop across the recursive resolution: every invocation leaves the stack exactly as it found it
+   stable=['len(stack) == old(len(stack))',
+           'forall(0, len(stack), lambda i: same(stack[i], old(stack[i])))'],
+   modifies=['*'],
+   loops={0: {'anchor': 'for top_node in snippet_abbr.children',
+              'invariant': ['distinct_ids(stack)', 'len(stack) == old(len(stack))',
+                            'forall(0, len(stack), lambda i: same(stack[i], old(stack[i])))']}})
